@@ -217,3 +217,233 @@ Proof.
   rewrite <- (app_nil_r (osym_tok (u_after u))), trun_osym. cbn [trun tmk t_cur t_pend t_names t_flag].
   unfold tmk, oord. destruct (u_after u); [reflexivity|]. now destruct (digits_nat (u_count u) - 1)%nat.
 Qed.
+
+(** ** a multiplied branch behind its anchor *)
+Definition gunit_str (u : unit_t) : pystr := "("%char :: flat_map bnode_str (u_body u) ++ closing_str u.
+Definition gunit_ok (fo : float_oracle) (u : unit_t) : bool :=
+  name_ok fo (u_name u) && negb (is_nil (u_body u)) && body_ok fo (oord (u_bond u)) (u_body u)
+  && match rev (u_body u) with b :: _ => negb (is_some (bn_bond b)) | [] => false end
+  && digits_ok (u_count u) && (1 <=? digits_nat (u_count u))%nat.
+Lemma gunit_ok_parts fo u : gunit_ok fo u = true ->
+  name_ok fo (u_name u) = true /\ u_body u <> [] /\ body_ok fo (oord (u_bond u)) (u_body u) = true
+  /\ last_bond_none (u_body u) /\ digits_ok (u_count u) = true /\ (1 <= digits_nat (u_count u))%nat.
+Proof.
+  unfold gunit_ok. intros Hok.
+  apply andb_prop in Hok as [Hok HN]. apply andb_prop in Hok as [Hok Hd]. apply andb_prop in Hok as [Hok Hlb].
+  apply andb_prop in Hok as [Hok Hbo]. apply andb_prop in Hok as [Hna Hne].
+  apply Nat.leb_le in HN. repeat split; try assumption.
+  - destruct (u_body u); [discriminate|discriminate].
+  - unfold last_bond_none. destruct (rev (u_body u)) as [|z t]; [exact I|]. now destruct (bn_bond z).
+Qed.
+
+Lemma gunit_sim fo u K : gunit_ok fo u = true -> cont K ->
+  forall st x pre pc f ak a0 rc,
+  Rel st x -> m_prev x = Some ak -> node_attrs (m_g x) ak = Ok a0 -> parse_graph_base_node fo (u_name u) = Ok a0 ->
+  m_pend x = oord (u_bond u) ->
+  rec_set (Some ak) [(1, a0, Some 1)] (s_recipes st) = rc ++ [(Some ak, [(1, a0, Some 1)])] ->
+  length rc = length (m_stack x) -> rec_get (Some ak) rc = None -> Forall skipch pre ->
+  match m_run fo (gunit_toks u) x with
+  | Ok x1 => exists st1 pre1,
+      main_loop (length (u_body u) + f) fo pc (pre ++ gunit_str u ++ K) st = main_loop f fo "]"%char (pre1 ++ K) st1
+      /\ Forall skipch pre1 /\ Rel st1 x1 /\ (m_stack x = [] -> s_recipes st1 = []) /\ m_stack x1 = m_stack x
+  | Err e => main_loop (length (u_body u) + f) fo pc (pre ++ gunit_str u ++ K) st = Err e
+  end.
+Proof.
+  intros Hok HK st x pre pc f ak a0 rc HR Ep Hat Ea0 Hpd Hset Hlen Habs Hpre.
+  destruct (gunit_ok_parts fo u Hok) as (Hna & Hbne & Hbo & Hlb & Hd & HN).
+  pose proof (unit_body_gen fo u ak a0 K (m_stack x) rc Ea0 Hna Hbo Hd HK Hlen Habs (u_body u) true st x
+                (pre ++ ["("%char]) pc f [] Hbne HR) as Hbody.
+  assert (Hf1 : m_stack x = m_stack x /\ m_prev x = Some ak
+                /\ rec_set (Some ak) [(1, a0, Some 1)] (s_recipes st) = rc ++ [(Some ak, [(1, a0, Some 1)])]
+                /\ node_attrs (m_g x) ak = Ok a0 /\ (@nil recipe_entry) = []) by (repeat split; assumption).
+  specialize (Hbody Hf1). clear Hf1.
+  assert (Hp1 : Ascii.eqb (last (pre ++ ["("%char]) pc) "("%char = true) by (now rewrite last_last).
+  assert (Hnob : Forall nob (pre ++ ["("%char])).
+  { apply Forall_app; split; [now apply skipch_nob|repeat constructor; discriminate]. }
+  rewrite Hpd in Hbody. specialize (Hbody Hp1 Hnob Hbo Hlb ltac:(intros es_rest H; exact H)).
+  cbn [app] in Hbody. fold (gunit_toks u) in Hbody.
+  assert (Etl : pre ++ gunit_str u ++ K = (pre ++ ["("%char]) ++ flat_map bnode_str (u_body u) ++ closing_str u ++ K).
+  { unfold gunit_str. rewrite <- !app_assoc. cbn [app]. now rewrite <- app_assoc. }
+  rewrite Etl. destruct (m_run fo (gunit_toks u) x) as [x1|e]; [|exact Hbody].
+  destruct Hbody as (st1 & pre1 & E & Hp & HR1 & Hrc & Hs & _). exists st1, pre1.
+  split; [exact E|]. split; [exact Hp|]. split; [exact HR1|]. split; [exact Hrc|exact Hs].
+Qed.
+
+(** ** texts made of flat items and multiplied branches *)
+Inductive gseg := GPlain (i : lin) | GUnit (u : unit_t).
+Definition gseg_str (s : gseg) : pystr := match s with GPlain i => lin_str i | GUnit u => gunit_str u end.
+Definition gseg_toks (s : gseg) : list tok := match s with GPlain i => lin_toks i | GUnit u => gunit_toks u end.
+Definition gsegs_str (l : list gseg) : pystr := flat_map gseg_str l.
+Definition gsegs_toks (l : list gseg) : list tok := flat_map gseg_toks l.
+Definition gseg_nodes (s : gseg) : nat := match s with GPlain _ => 1%nat | GUnit u => length (u_body u) end.
+Fixpoint gsegs_nodes (l : list gseg) : nat := match l with [] => O | s :: t => (gseg_nodes s + gsegs_nodes t)%nat end.
+Definition gseg_ok (fo : float_oracle) (s : gseg) : bool := match s with GPlain i => lin_ok fo i | GUnit u => gunit_ok fo u end.
+
+(** where a unit may stand: [md] is the state of the recipe table, [s] the names of the node to
+    attach to and of the open anchors and the pending bond order.  A unit names its anchor and the
+    order of the bond that reaches its first node ([u_name], [u_bond]); both must be what stands in
+    front of it. *)
+Fixpoint gtrack (md : mode) (s : tstate) (l : list gseg) : bool :=
+  match l with
+  | [] => true
+  | GPlain i :: t =>
+      match item_track i s with
+      | None => false
+      | Some s1 => gtrack (mode_item md i (is_nil (t_names s1))) s1 t
+      end
+  | GUnit u :: t =>
+      negb (t_flag s) && (match md with Dirty => false | _ => true end)
+      && (match t_cur s with Some c => str_eqb c (u_name u) | None => false end)
+      && Z.eqb (t_pend s) (oord (u_bond u))
+      && gtrack (if is_nil (t_names s) then Clean else Dirty) (tmk (Some (u_name u)) (oord (u_after u)) (t_names s) false) t
+  end.
+Definition gsegs_ok (fo : float_oracle) (l : list gseg) : bool := forallb (gseg_ok fo) l && gtrack Clean t_init l.
+
+Lemma cont_gsegs fo l : forallb (gseg_ok fo) l = true -> cont (gsegs_str l ++ ["}"%char]).
+Proof.
+  destruct l as [|[i|u] t]; [constructor| |]; cbn [gsegs_str flat_map gseg_str forallb gseg_ok]; intros H.
+  - unfold lin_str. destruct (l_open i); cbn [app]; rewrite <- ?app_assoc; cbn [app]; constructor.
+  - apply andb_prop in H as [H _]. destruct (gunit_ok_parts fo u H) as (_ & Hne & _).
+    unfold gunit_str. destruct (u_body u) as [|b r]; [contradiction|]. cbn [flat_map]. unfold bnode_str at 1. cbn [app]. constructor.
+Qed.
+Lemma is_nil_rev {A} (l : list A) : is_nil (rev l) = is_nil l.
+Proof. destruct l as [|a r]; [reflexivity|]. cbn [rev]. now destruct (rev r). Qed.
+Lemma Forall2_is_nil {A B} (R : A -> B -> Prop) l1 l2 : Forall2 R l1 l2 -> is_nil l1 = is_nil l2.
+Proof. intros H. now destruct H. Qed.
+
+Theorem sim_gsegs fo : forall l md s st x pre pc f,
+  forallb (gseg_ok fo) l = true -> gtrack md s l = true ->
+  Rel st x -> TI fo x s -> t_flag s = false -> minv md st ->
+  Forall skipch pre -> pc <> "("%char ->
+  match m_run fo (gsegs_toks l) x with
+  | Ok x1 => exists st1, main_loop (gsegs_nodes l + Datatypes.S f) fo pc (pre ++ gsegs_str l ++ ["}"%char]) st = Ok st1 /\ Rel st1 x1
+  | Err e => main_loop (gsegs_nodes l + Datatypes.S f) fo pc (pre ++ gsegs_str l ++ ["}"%char]) st = Err e
+  end.
+Proof.
+  induction l as [|[i|u] t IH]; intros md s st x pre pc f Hok Htr HR HT Hfl Hm Hpre Hpc.
+  - cbn [gsegs_toks flat_map m_run gsegs_str app gsegs_nodes plus main_loop]. exists st. split; [|assumption].
+    rewrite next_node_skip by (now apply skipch_nob). now rewrite next_node_single.
+  - (* a flat item *)
+    cbn [forallb gseg_ok] in Hok. apply andb_prop in Hok as [Hoki Hokt].
+    cbn [gtrack] in Htr. destruct (item_track i s) as [s1|] eqn:Eit; [|discriminate].
+    cbn [gsegs_toks flat_map gseg_toks]. fold (gsegs_toks t). rewrite (m_item fo i (gsegs_toks t) x Hoki).
+    cbn [gsegs_str flat_map gseg_str gsegs_nodes gseg_nodes plus]. fold (gsegs_str t).
+    set (k := gsegs_str t ++ ["}"%char]).
+    assert (Hk : cont k) by (now apply (cont_gsegs fo)).
+    destruct (lin_ok_parts fo i Hoki) as (Hn & _).
+    set (opn := if l_open i then ["("%char] else []).
+    assert (Etext : pre ++ (lin_str i ++ gsegs_str t) ++ ["}"%char]
+                  = (pre ++ opn) ++ "["%char :: "#"%char :: l_name i ++ "]"%char :: (lin_tail_str i ++ k)).
+    { unfold lin_str, k, opn. rewrite <- !app_assoc. cbn [app]. rewrite <- !app_assoc. reflexivity. }
+    rewrite Etext. cbn [main_loop].
+    assert (Hopn : Forall nob (pre ++ opn)).
+    { apply Forall_app; split; [now apply skipch_nob|]. unfold opn. destruct (l_open i); repeat constructor. discriminate. }
+    rewrite next_node_skip by assumption. rewrite next_node_here by (now apply (name_chars fo)).
+    assert (Hpc' : Ascii.eqb (last (pre ++ opn) pc) "("%char = l_open i).
+    { unfold opn. destruct (l_open i).
+      - rewrite last_last. reflexivity.
+      - rewrite app_nil_r. apply Ascii.eqb_neq. now apply last_skipch. }
+    pose proof (ti_wf fo x s HT) as Hw.
+    assert (Hop2 : l_open i = true -> exists p, m_prev x = Some p /\ has_node (m_g x) p = true).
+    { intros Ho. unfold item_track in Eit. rewrite Ho, Hfl in Eit. pose proof (ti_cur fo x s HT) as Hc.
+      destruct (t_cur s) as [c|]; [|discriminate]. destruct Hc as (p & a & Ep & _ & Hat). exists p. split; [exact Ep|].
+      now apply (node_attrs_has _ _ a). }
+    assert (Hst : l_close i <> None -> (if l_open i then m_prev x :: m_stack x else m_stack x) <> []).
+    { intros Hc. unfold item_track in Eit. destruct (l_open i); [discriminate|].
+      destruct (l_close i); [|contradiction]. pose proof (ti_stack fo x s HT) as Hs2.
+      destruct (t_names s); [discriminate|]. inversion Hs2. discriminate. }
+    pose proof (node_step_lin fo i k st x _ Hoki Hk HR Hpc' Hop2 Hst) as Hstep.
+    destruct (item_effect fo i x) as [x1|e] eqn:Eeff; cbn [bind]; [|now rewrite Hstep].
+    destruct Hstep as (st1 & Est & HR1 & _). rewrite Est. cbn [bind].
+    assert (Erun : m_run fo (lin_toks i) x = Ok x1).
+    { rewrite <- (app_nil_r (lin_toks i)), (m_item fo i [] x Hoki), Eeff. reflexivity. }
+    pose proof (m_run_TI fo _ x x1 s s1 Erun ltac:(now rewrite (trun_lin fo)) HT) as HT1.
+    assert (Hfl1 : t_flag s1 = false).
+    { unfold item_track in Eit. destruct (if l_open i then _ else _) as [ns|]; [|discriminate].
+      destruct (l_close i); [destruct ns; [discriminate|]|]; injection Eit as <-; reflexivity. }
+    pose proof (minv_item fo i k st x _ st1 s md Hoki Hk HR HT Hfl Hm Hpc' Est) as Hm1.
+    assert (Enil : is_nil (s_branch_anchor st1) = is_nil (t_names s1)).
+    { destruct HR1 as (_ & _ & _ & _ & Rba1 & _). rewrite Rba1, is_nil_rev. apply (Forall2_is_nil _ _ _ (ti_stack fo x1 s1 HT1)). }
+    rewrite Enil in Hm1.
+    unfold k. apply (IH _ s1 st1 x1 (lin_tail_str i) "]"%char f Hokt Htr HR1 HT1 Hfl1 Hm1).
+    + now apply (lin_tail_skipch fo).
+    + discriminate.
+  - (* a multiplied branch *)
+    cbn [forallb gseg_ok] in Hok. apply andb_prop in Hok as [Hoku Hokt].
+    cbn [gtrack] in Htr. apply andb_prop in Htr as [Htr Htrt]. apply andb_prop in Htr as [Htr Hpd].
+    apply andb_prop in Htr as [Htr Hcur]. apply andb_prop in Htr as [_ Hmd]. apply Z.eqb_eq in Hpd.
+    destruct (t_cur s) as [c|] eqn:Ecur; [|discriminate]. apply str_eqb_eq in Hcur. subst c.
+    destruct (gunit_ok_parts fo u Hoku) as (Hna & Hbne & Hbo & Hlb & Hd & HN).
+    pose proof (ti_cur fo x s HT) as Hc. rewrite Ecur in Hc. destruct Hc as (ak & a0 & Ep & Ea0 & Hat).
+    cbn [gsegs_toks flat_map gseg_toks]. fold (gsegs_toks t). rewrite m_run_app.
+    cbn [gsegs_str flat_map gseg_str gsegs_nodes gseg_nodes]. fold (gsegs_str t).
+    set (K := gsegs_str t ++ ["}"%char]).
+    assert (HK : cont K) by (now apply (cont_gsegs fo)).
+    pose proof HR as (Rg & Rc & Rp & Rcy & Rba & Rbr & Rpb).
+    assert (Hnotin : ~ In (Some ak) (s_branch_anchor st)).
+    { rewrite Rba, <- in_rev. now apply (TI_prev_fresh fo x s ak HT Hfl). }
+    assert (Hrc : exists rc, rec_set (Some ak) [(1, a0, Some 1)] (s_recipes st) = rc ++ [(Some ak, [(1, a0, Some 1)])]
+                             /\ length rc = length (m_stack x) /\ rec_get (Some ak) rc = None).
+    { destruct md; [| |discriminate]; cbn [minv] in Hm.
+      - exists (s_recipes st). split; [|split].
+        + apply rec_set_absent. apply rec_get_notin. now rewrite Hm.
+        + transitivity (length (map fst (s_recipes st))); [symmetry; apply map_length|]. rewrite Hm, Rba. apply rev_length.
+        + apply rec_get_notin. now rewrite Hm.
+      - rewrite Rp, Ep in Hm. destruct (map_fst_snoc _ _ _ Hm) as (rc & old & Erc & Ekeys).
+        exists rc. split; [|split].
+        + rewrite Erc. apply rec_set_app. apply rec_get_notin. now rewrite Ekeys.
+        + transitivity (length (map fst rc)); [symmetry; apply map_length|]. rewrite Ekeys, Rba. apply rev_length.
+        + apply rec_get_notin. now rewrite Ekeys. }
+    destruct Hrc as (rc & Hset & Hlen & Habs).
+    pose proof (gunit_sim fo u K Hoku HK st x pre pc (gsegs_nodes t + Datatypes.S f) ak a0 rc HR Ep Hat Ea0
+                  (eq_trans (ti_pend fo x s HT) Hpd) Hset Hlen Habs Hpre) as Hu.
+    replace (length (u_body u) + gsegs_nodes t + Datatypes.S f)%nat with (length (u_body u) + (gsegs_nodes t + Datatypes.S f))%nat by lia.
+    rewrite <- app_assoc. fold K.
+    destruct (m_run fo (gunit_toks u) x) as [x1|e] eqn:Erun; cbn [bind]; [|exact Hu].
+    destruct Hu as (st1 & pre1 & -> & Hpre1 & HR1 & Hrc1 & Hstk1).
+    pose proof (m_run_TI fo _ x x1 s _ Erun (trun_gunit fo u s Hbne Hbo Ecur Hfl) HT) as HT1.
+    unfold K. apply (IH _ _ st1 x1 pre1 "]"%char f Hokt Htrt HR1 HT1 eq_refl); [|assumption|discriminate].
+    destruct (t_names s) as [|n0 r0] eqn:En; cbn [is_nil minv]; [|exact I].
+    pose proof (ti_stack fo x s HT) as Hs2. rewrite En in Hs2. inversion Hs2 as [E0|]; subst.
+    destruct HR1 as (_ & _ & _ & _ & Rba1 & _). rewrite Rba1, Hstk1, <- E0. rewrite Hrc1 by (now rewrite <- E0). reflexivity.
+Qed.
+
+Lemma gseg_str_length s : (gseg_nodes s <= length (gseg_str s))%nat.
+Proof.
+  destruct s as [i|u]; cbn [gseg_nodes gseg_str].
+  - unfold lin_str. rewrite app_length. cbn [length]. lia.
+  - unfold gunit_str. repeat (rewrite app_length || cbn [length]).
+    assert (H : (length (u_body u) <= length (flat_map bnode_str (u_body u)))%nat).
+    { induction (u_body u) as [|b r IHr]; [cbn; lia|]. cbn [flat_map length]. rewrite app_length. unfold bnode_str at 1. cbn [length]. lia. }
+    lia.
+Qed.
+Lemma gsegs_str_length l : (gsegs_nodes l <= length (gsegs_str l))%nat.
+Proof.
+  induction l as [|s t IH]; [cbn; lia|]. cbn [gsegs_nodes gsegs_str flat_map]. rewrite app_length. fold (gsegs_str t).
+  pose proof (gseg_str_length s). lia.
+Qed.
+
+(** ** the theorem: shorthand text with multiplied branches at any depth = longhand tokens *)
+Definition denote_gsegs (fo : float_oracle) (l : list gseg) : res graph := m_finish (m_run fo (gsegs_toks l) m_init).
+Theorem reader_sim_gsegs fo l : gsegs_ok fo l = true ->
+  read_cgsmiles fo ("{"%char :: gsegs_str l ++ ["}"%char]) = denote_gsegs fo l.
+Proof.
+  unfold gsegs_ok. intros H. apply andb_prop in H as [Hok Htr].
+  unfold read_cgsmiles, denote_gsegs, m_finish.
+  assert (Elast : last ("{"%char :: gsegs_str l ++ ["}"%char]) " "%char = "}"%char).
+  { change ("{"%char :: gsegs_str l ++ ["}"%char]) with (("{"%char :: gsegs_str l) ++ ["}"%char]). apply last_last. }
+  rewrite Elast.
+  assert (HR : Rel init_state m_init) by (unfold Rel; cbn; repeat split; discriminate).
+  pose proof (gsegs_str_length l) as Hlen.
+  set (f := (length (gsegs_str l) + 2 - gsegs_nodes l)%nat).
+  assert (Ef : Datatypes.S (length ("{"%char :: gsegs_str l ++ ["}"%char])) = (gsegs_nodes l + Datatypes.S f)%nat).
+  { cbn [length]. rewrite app_length. cbn [length]. unfold f. lia. }
+  rewrite Ef.
+  pose proof (sim_gsegs fo l Clean t_init init_state m_init ["{"%char] "}"%char f Hok Htr HR (TI_init fo) eq_refl eq_refl
+                ltac:(repeat constructor; discriminate) ltac:(discriminate)) as Hsim.
+  cbn [app] in Hsim.
+  destruct (m_run fo (gsegs_toks l) m_init) as [x1|e].
+  - destruct Hsim as (st1 & -> & (Rg & _ & _ & Rcy & _)). cbn [bind]. rewrite Rcy, Rg. reflexivity.
+  - rewrite Hsim. reflexivity.
+Qed.
+Print Assumptions reader_sim_gsegs.
